@@ -29,7 +29,7 @@ def main():
         paths = [p for p in paths if any(n in p for n in names)]
     out_path = "/verif/mutants/silent/RESULTS.json"
     results = json.load(open(out_path)) if os.path.exists(out_path) else {}
-    with ThreadPoolExecutor(max_workers=2) as ex:
+    with ThreadPoolExecutor(max_workers=3) as ex:
         for name, res in ex.map(one, paths):
             alarms = {k: v for k, v in res.items() if v["exit"] != 0}
             results[name] = {"checks_run": sorted(res), "alarms": alarms}
